@@ -95,4 +95,35 @@ def writeKeyFile (c : Cls) (hasPrivate : Bool) (p : Pass) (existing : Option Nat
     | .ok call => (.ok call, some { exists_ := true, mode := mode, holdsKey := true })
     | .error e => (.error e, some { exists_ := true, mode := mode, holdsKey := false })
 
+/-! ## destination states of `write_private_key_file` -/
+
+inductive Dest
+  /-- nothing at the path; its directory exists -/
+  | missing
+  /-- a regular file with these mode bits -/
+  | existing (mode : Nat)
+  /-- the directory of the path does not exist -/
+  | missingParent
+  /-- a symlink whose target is absent (the target's directory exists): `O_CREAT` creates the target -/
+  | danglingSymlink
+  /-- a symlink to a regular file with these mode bits -/
+  | symlinkTo (mode : Nat)
+  | directory
+  deriving Repr, DecidableEq
+
+inductive OSErr | fileNotFound | isADirectory
+  deriving Repr, DecidableEq
+
+def OSErr.name : OSErr → String
+  | .fileNotFound => "FileNotFoundError" | .isADirectory => "IsADirectoryError"
+
+/-- the single `os.open(filename, O_WRONLY|O_TRUNC|O_CREAT, 0o600)` of `_write_private_key_file`:
+    (mode bits of the file that gets written, whether the call created it); an error is not handled -/
+def openDest (d : Dest) (umask : Nat) : Except OSErr (Nat × Bool) :=
+  match d with
+  | .missing | .danglingSymlink => .ok (keyFileMode none umask, true)
+  | .existing m | .symlinkTo m => .ok (m, false)
+  | .missingParent => .error .fileNotFound
+  | .directory => .error .isADirectory
+
 end PV.KeyWrite
